@@ -29,6 +29,67 @@ ENGINE = "gridsim"
 STEP_CAP = 400000
 
 
+class WorkMeter:
+    """Deterministic measure of refinement work (calls of PsiContour.refinePoint).  A
+    simulated-parallel run that needs far more work than the serial run of the same
+    inputs (e.g. because misplaced results sent a task into endless refinement) is
+    stopped with WORKCAP instead of waiting for a wall-clock watchdog."""
+
+    def __init__(self, sim=None, cap=None):
+        self.n = 0
+        self.sim = sim
+        self.cap = cap
+
+    @contextlib.contextmanager
+    def installed(self):
+        from hypnotoad.core.equilibrium import PsiContour
+
+        real = PsiContour.refinePoint
+        meter = self
+
+        def refine_point(self, p, tangent, **kw):
+            meter.n += 1
+            if meter.cap is not None and meter.n > meter.cap and meter.sim is not None:
+                if not meter.sim.aborted:
+                    meter.sim.aborted = "WORKCAP"
+                raise SimAbort("WORKCAP")
+            return real(self, p, tangent, **kw)
+
+        # every ODE right-hand-side evaluation also counts: a task sent into a
+        # never-ending solve_ivp by garbage input is bounded the same way
+        import hypnotoad.cases.tokamak as tokmod
+        import hypnotoad.core.equilibrium as eqmod
+        import hypnotoad.core.mesh as meshmod
+
+        mods = [m for m in (eqmod, meshmod, tokmod) if hasattr(m, "solve_ivp")]
+        real_ivp = {m: m.solve_ivp for m in mods}
+
+        def make_ivp(real_solve):
+            def solve_ivp(fun, *a, **kw):
+                def counted(*fa, **fkw):
+                    meter.n += 1
+                    if meter.cap is not None and meter.n > meter.cap \
+                            and meter.sim is not None:
+                        if not meter.sim.aborted:
+                            meter.sim.aborted = "WORKCAP"
+                        raise SimAbort("WORKCAP")
+                    return fun(*fa, **fkw)
+
+                return real_solve(counted, *a, **kw)
+
+            return solve_ivp
+
+        for m in mods:
+            m.solve_ivp = make_ivp(real_ivp[m])
+        PsiContour.refinePoint = refine_point
+        try:
+            yield self
+        finally:
+            PsiContour.refinePoint = real
+            for m in mods:
+                m.solve_ivp = real_ivp[m]
+
+
 def build(scenario, options):
     if scenario["family"] == "circ":
         return workloads.build_circular(options)
@@ -50,8 +111,10 @@ def run(scenario, outpath, keep_log=False, after_build=None):
     bug = faults.Buggify(scenario["buggify"]) if scenario.get("buggify") else None
     clk = faults.ClockSim(scenario["clock"]) if scenario.get("clock") else None
     res = {"outcome": None, "exc": None, "msg": None}
+    meter = WorkMeter(sim, scenario.get("work_cap") if sim is not None else None)
     with contextlib.ExitStack() as st:
         st.enter_context(workloads.env_seams())
+        st.enter_context(meter.installed())
         if clk is not None:
             st.enter_context(clk.installed())
         else:
@@ -89,6 +152,7 @@ def run(scenario, outpath, keep_log=False, after_build=None):
         res["mesh"] = mesh
         res["eq"] = eq
     gc.collect()
+    res["work"] = meter.n
     if sim is not None:
         if sim.harness_error is not None:
             raise core.HarnessError(str(sim.harness_error))
